@@ -98,6 +98,22 @@ Definition row := (Z * option (Z * Q))%type.
 
 Definition corr (t d : list Z) : option (Z * Q) := pearson (combine t d).
 
+(* tuple(dict.fromkeys(ids)): first occurrences, in order; its length = len(set(ids)) *)
+Fixpoint dedup (l : list Z) : list Z :=
+  match l with
+  | [] => []
+  | a :: r => a :: filter (fun x => negb (x =? a)) (dedup r)
+  end.
+
+Definition target_not_loaded (legacy : bool) (th : option hap) (vset : option (list Z)) (target : Z)
+           (loaded : list gvar) : bool :=
+  negb legacy
+  && match th, vset with
+     | None, Some s => (lenZ loaded <? lenZ (dedup s))
+                       && match find_var target loaded with None => true | Some _ => false end
+     | _, _ => false
+     end.
+
 Definition calc_ld (legacy : bool) (target : Z) (gs : list gvar) (lines : list hline)
            (keep : list bool) (ids : option (list Z)) (from_gts : bool) : res (list row) :=
   let hflt := if from_gts then None else option_map (fun l => target :: l) ids in
@@ -120,6 +136,11 @@ Definition calc_ld (legacy : bool) (target : Z) (gs : list gvar) (lines : list h
         end) (fun vset =>
   let loaded := match vset with None => gs | Some s => filter (fun g => memZ (gv_id g) s) gs end in
   if existsb (fun g => calls_bad 0 keep (gv_calls g) (gv_unph g)) loaded then Err E_Value else
+  (* the "were all variants loaded" step (after check_missing / check_biallelic / check_phase, before
+     any transform; `>` since fix 17d4c45, the pinned tree compared with `<`): a variant set is in
+     use, it names more IDs than records were loaded, the target is not a haplotype and is not among
+     the loaded records -> the explanatory ValueError (otherwise only a warning) *)
+  if target_not_loaded legacy th vset target loaded then Err E_Value else
   bind (if from_gts then Ok []
         else map_res (fun h => bind (hap_dosage loaded keep h) (fun d => Ok (h_id h, d))) hs') (fun hd =>
   bind (match th with
@@ -136,13 +157,6 @@ Definition calc_ld (legacy : bool) (target : Z) (gs : list gvar) (lines : list h
                   end in
     Ok (map (fun g => (gv_id g, corr tdos (var_dosage keep g))) listed)
   else Ok (map (fun hd : Z * list Z => (fst hd, corr tdos (snd hd))) hd)))).
-
-(* tuple(dict.fromkeys(ids)): first occurrences, in order *)
-Fixpoint dedup (l : list Z) : list Z :=
-  match l with
-  | [] => []
-  | a :: r => a :: filter (fun x => negb (x =? a)) (dedup r)
-  end.
 
 Definition calc_ld_cli (legacy : bool) (target : Z) (gs : list gvar) (lines : list hline)
            (keep : list bool) (ids : option (list Z)) (from_gts : bool) : res (list row) :=
